@@ -110,6 +110,10 @@ func (o c19Op) coq() string {
 		return "OClear"
 	case "restart":
 		return "ORestart"
+	case "persist":
+		return "OPersist"
+	case "drain":
+		return "ODrain"
 	case "renq":
 		it := make([]string, len(o.Prefixes))
 		for i, p := range o.Prefixes {
@@ -190,8 +194,12 @@ func c19Gen(r *vfRand, pool []c19Key, nops int, maxLen int) []c19Op {
 			ops = append(ops, c19Op{Kind: "remove", keys: pick(pool, 5)})
 		case x < 78:
 			ops = append(ops, c19Op{Kind: "clear"})
-		case x < 85:
+		case x < 81:
 			ops = append(ops, c19Op{Kind: "restart"})
+		case x < 83:
+			ops = append(ops, c19Op{Kind: "persist"})
+		case x < 85:
+			ops = append(ops, c19Op{Kind: "drain"})
 		case x < 92:
 			n := 1 + r.Intn(3)
 			ps := make([]string, n)
@@ -220,6 +228,16 @@ func c19Gen(r *vfRand, pool []c19Key, nops int, maxLen int) []c19Op {
 
 func c19Run(ops []c19Op, ids map[string]int) (obs []c19Obs, sig map[string]bool) {
 	ctx := context.Background()
+	// one datastore for the whole history: Persist must replace whatever snapshot it holds
+	d := dssync.MutexWrap(ds.NewMapDatastore())
+	countRows := func() int {
+		res, err := d.Query(ctx, query.Query{KeysOnly: true})
+		if err != nil {
+			panic(err)
+		}
+		rest, _ := res.Rest()
+		return len(rest)
+	}
 	q := NewProvideQueue()
 	rq := NewReprovideQueue()
 	sig = map[string]bool{}
@@ -276,7 +294,6 @@ func c19Run(ops []c19Op, ids map[string]int) (obs []c19Obs, sig map[string]bool)
 		case "clear":
 			o = c19Obs{Kind: "num", Num: q.Clear()}
 		case "restart":
-			d := dssync.MutexWrap(ds.NewMapDatastore())
 			if err := q.Persist(ctx, d, 3); err != nil {
 				panic(err)
 			}
@@ -284,16 +301,30 @@ func c19Run(ops []c19Op, ids map[string]int) (obs []c19Obs, sig map[string]bool)
 			if err := nq.DrainDatastore(ctx, d); err != nil {
 				panic(err)
 			}
-			res, err := d.Query(ctx, query.Query{KeysOnly: true})
-			if err != nil {
-				panic(err)
-			}
-			rest, _ := res.Rest()
 			if q.NumRegions() > 0 {
 				sig["restart-nonempty"] = true
 			}
 			q = nq
-			o = c19Obs{Kind: "num", Num: len(rest)}
+			o = c19Obs{Kind: "num", Num: countRows()}
+		case "persist":
+			before := countRows()
+			if err := q.Persist(ctx, d, 3); err != nil {
+				panic(err)
+			}
+			o = c19Obs{Kind: "num", Num: countRows()}
+			if before > 0 {
+				sig["persist-over-snapshot"] = true
+			}
+		case "drain":
+			if countRows() > 0 {
+				sig["drain-stale-snapshot"] = true
+			}
+			nq := NewProvideQueue()
+			if err := nq.DrainDatastore(ctx, d); err != nil {
+				panic(err)
+			}
+			q = nq
+			o = c19Obs{Kind: "num", Num: countRows()}
 		case "renq":
 			ps := make([]bitstr.Key, len(op.Prefixes))
 			for i, p := range op.Prefixes {
